@@ -86,8 +86,18 @@ class Ctx:
         for a in self.adapters:
             a.market.update()
 
+    def advance(self):
+        """End the current bar and begin the next one (what the actuator does between two bars)."""
+        if self.bar + 1 >= len(self.index):
+            raise RuntimeError("no more bars")
+        self.end_bar()
+        self.begin_bar(self.bar + 1)
+
     def price_row(self):
-        return self.prices.loc[self.index[self.bar]]
+        c = self.__dict__.setdefault("_row_cache", {})
+        if self.bar not in c:
+            c[self.bar] = self.prices.loc[self.index[self.bar]]
+        return c[self.bar]
 
     # -- observation ----------------------------------------------------------------------------------
     def wallet(self):
@@ -106,6 +116,9 @@ class Ctx:
         h = hashlib.sha1()
         r = self.raw()
         r.pop("actions", None)
+        r["bar"] = self.bar
+        if getattr(self, "canon_model", False):
+            r["model"] = self.model
         h.update(_canon_repr(r).encode())
         return h.hexdigest()[:20]
 
@@ -134,7 +147,8 @@ class Ctx:
     # -- snapshot / restore ------------------------------------------------------------------------------
     def snapshot(self):
         memo = {}
-        snap = {"assets": {k: v.balance for k, v in self.broker.assets.items()}, "n_actions": len(self.actions), "markets": []}
+        snap = {"assets": {k: v.balance for k, v in self.broker.assets.items()}, "n_actions": len(self.actions), "markets": [],
+                "bar": self.bar, "clock": self.clock[0], "model": copy.deepcopy(getattr(self, "model", None))}
         for a in self.adapters:
             m = a.market
             d = {}
@@ -161,6 +175,10 @@ class Ctx:
             else:
                 assets[k] = Asset(k, bal)
         del self.actions[snap["n_actions"]:]
+        self.bar = snap["bar"]
+        self.clock[0] = snap["clock"]
+        if snap["model"] is not None or hasattr(self, "model"):
+            self.model = copy.deepcopy(snap["model"])
         for a, d in zip(self.adapters, snap["markets"]):
             m = a.market
             for k in list(vars(m).keys()):
